@@ -80,7 +80,12 @@ def run_generic(ctx, prop, bits, what, n_quick, n_thorough, softs=False, small=T
             if code is None:
                 ctx.tie_broken.append("Coq evaluation failed for scenario %d call %d" % (si, oi))
                 continue
-            if code & bits:
+            if (code & 8) and res["outcome"].startswith("exc:") and not (bits & 8):
+                # whatever the property: a call on a well-typed program of this family must end normally or with SolveFailure
+                core.add_violation(ctx, "the library raised %s on a well-typed scenario of this property's family (no verdict on %s possible)"
+                                   % (res["outcome"], prop),
+                                   {"scenario": brief(scs[si], oi), "observed": {k: res[k] for k in ("outcome", "err", "before", "values")}, "code": code})
+            elif code & bits:
                 core.add_violation(ctx, "%s (check bits %d; outcome %s, values %s)" % (what, code & bits, res["outcome"], res["values"]),
                                    {"scenario": brief(scs[si], oi), "observed": {k: res[k] for k in ("outcome", "err", "before", "values")},
                                     "code": code, "model_terms_agree": not (code & 1)})
